@@ -240,12 +240,25 @@ def _flat_nums(pv):
 
 
 def sym_equal(s1, s2):
+    """equality of two canonical (srepr) expressions: structural, else same symbols and numerically equal
+    (relative 1e-9; sympy's str() prints floats with 15 digits) at three fixed sample points"""
     if s1 == s2:
         return True
     try:
         e1, e2 = sympy.sympify(s1), sympy.sympify(s2)
-        d = sympy.simplify(e1 - e2)
-        return d == 0
+        n1, n2 = sorted(str(x) for x in e1.free_symbols), sorted(str(x) for x in e2.free_symbols)
+        if n1 != n2:
+            return False
+        syms = sorted(e1.free_symbols | e2.free_symbols, key=str)
+        for k in range(3):
+            sub = {}
+            for x in syms:
+                h = int(__import__("hashlib").sha1((str(x) + str(k)).encode()).hexdigest()[:6], 16)
+                sub[x] = 0.3 + (h % 1000) / 1400.0
+            a, b = complex(e1.evalf(30, subs=sub)), complex(e2.evalf(30, subs=sub))
+            if abs(a - b) > 1e-9 * max(1.0, abs(a), abs(b)):
+                return False
+        return True
     except Exception:
         return False
 
